@@ -132,3 +132,132 @@ def jit_variants(make_module, example):
     except Exception as e:  # noqa: BLE001
         out.append(("traced", e))
     return out
+
+
+# ---------------------------------------------------------------------------------------------------------------
+# Object lifecycle and secondary entry points (round 5): a module that went through deepcopy / pickle / torch.save /
+# state_dict / dtype conversion must compute exactly what the freshly constructed module computes, and the Module
+# path must compute what the functional path computes for the same options.  Options are enumerated one factor at
+# a time around three bases that use FALSY-but-legal values (eos=0, flags False, padding 0, a zero cost).
+def _life_bases():
+    return [
+        dict(eos=0, include_eos=False, norm=False, batch_first=False, ins_cost=1.0, del_cost=1.0, sub_cost=1.0,
+             padding=0, exclude_last=False, sub_avg=False, reduction="none", ignore_index=-2),
+        dict(eos=2, include_eos=True, norm=True, batch_first=True, ins_cost=1.0, del_cost=2.0, sub_cost=0.5,
+             padding=-100, exclude_last=True, sub_avg=True, reduction="sum", ignore_index=5),
+        dict(eos=None, include_eos=False, norm=True, batch_first=False, ins_cost=2.0, del_cost=2.0, sub_cost=2.0,
+             padding=7, exclude_last=False, sub_avg=False, reduction="mean", ignore_index=-100),
+    ]
+
+
+_LIFE_ALT = dict(eos=(0, 1, 2, None), include_eos=(False, True), norm=(False, True), batch_first=(False, True),
+                 ins_cost=(0.5,), del_cost=(3.0,), sub_cost=(0.0, 3.0), padding=(0, -1), exclude_last=(False, True),
+                 sub_avg=(False, True), reduction=("none", "sum", "mean"), ignore_index=(0,))
+
+
+def life_configs():
+    seen, out = set(), []
+    for base in _life_bases():
+        cands = [dict(base)] + [dict(base, **{k: v}) for k, vals in _LIFE_ALT.items() for v in vals]
+        for c in cands:
+            key = tuple(sorted((k, repr(v)) for k, v in c.items()))
+            if key not in seen:
+                seen.add(key)
+                out.append(c)
+    return out
+
+
+def _same(a, b):
+    return (isinstance(a, torch.Tensor) and isinstance(b, torch.Tensor) and a.shape == b.shape and a.dtype == b.dtype
+            and bool(((a != a) & (b != b) | (a == b)).all()))
+
+
+def lifecycle_pass(ctx, names, seed):
+    """names: module class names of pydrobert.torch.modules driven by the calling check."""
+    import inspect
+    import random
+
+    import pydrobert.torch.functional as F
+    import pydrobert.torch.modules as M
+    from mc.guards import GuardViolation, lifecycle_variants
+
+    fn_of = {"EditDistance": "edit_distance", "PrefixEditDistances": "prefix_edit_distances",
+             "ErrorRate": "error_rate", "PrefixErrorRates": "prefix_error_rates",
+             "OptimalCompletion": "optimal_completion",
+             "HardOptimalCompletionDistillationLoss": "hard_optimal_completion_distillation_loss",
+             "MinimumErrorRateLoss": "minimum_error_rate_loss"}
+    rng = random.Random(seed * 31 + 5)
+    pairs, ref, hyp = pair_batch(2, 3)          # (R, N), (H, N): every pair over {0,1,2}
+    pairs2, ref2, hyp2 = pair_batch(3, 2)       # another shape, used to exercise an object before it is copied
+    for name in names:
+        cls, fn = getattr(M, name), getattr(F, fn_of[name])
+        init_keys = set(inspect.signature(cls.__init__).parameters) - {"self"}
+        fwd_warn = "warn" in inspect.signature(cls.forward).parameters
+        done = set()
+        for cfg_all in life_configs():
+            cfg = {k: v for k, v in cfg_all.items() if k in init_keys}
+            key = tuple(sorted((k, repr(v)) for k, v in cfg.items()))
+            if key in done:
+                continue
+            done.add(key)
+            bf = cfg.get("batch_first", False)
+
+            def inputs(r, h):
+                N, H = h.size(1), h.size(0)
+                if name == "HardOptimalCompletionDistillationLoss":
+                    lg = torch.tensor([[[round(rng.uniform(-2, 2), 3) for _ in range(3)] for _ in range(N)]
+                                       for _ in range(H)])
+                    return (lg.transpose(0, 1), r.t(), h.t()) if bf else (lg, r, h)
+                if name == "MinimumErrorRateLoss":
+                    Mm = 3  # samples per batch element: N // 3 batch elements
+                    Nb = N // Mm
+                    hh = h[:, :Nb * Mm].reshape(H, Nb, Mm)
+                    rr = r[:, :Nb * Mm].reshape(r.size(0), Nb, Mm)[:, :, 0]
+                    lp = torch.tensor([[round(rng.uniform(-2, 0), 3) for _ in range(Mm)] for _ in range(Nb)])
+                    return (lp, rr.t(), hh.permute(1, 2, 0)) if bf else (lp, rr, hh)
+                return (r.t(), h.t()) if bf else (r, h)
+
+            args, args2 = inputs(ref, hyp), inputs(ref2, hyp2)
+            kw = dict(cfg)
+            if "warn" in init_keys:
+                kw["warn"] = False
+            call_kw = {"warn": False} if fwd_warn else {}
+
+            def make():
+                return cls(**kw)
+
+            falsy = any((v == 0 or v is False) and v is not None for v in cfg.values())
+            case = {"kind": "lifecycle", "module": name, "cfg": {k: v for k, v in cfg.items()}}
+            ctx.case(1, 1)
+            try:
+                want = make()(*[a.clone() for a in args], **call_kw)
+                via_fn = fn(*[a.clone() for a in args], **dict(cfg, warn=False))
+            except Exception as e:  # noqa: BLE001
+                ctx.violation({"api": name, "symptom": "raises", "type": type(e).__name__, "lifecycle": "fresh"}, case,
+                              {"error": str(e)[-300:]})
+                continue
+            if not _same(want, via_fn):
+                ctx.violation({"api": name, "symptom": "module-differs-from-functional",
+                               "uniform_costs": len({cfg.get("ins_cost"), cfg.get("del_cost"), cfg.get("sub_cost")}) == 1},
+                              case, {"module": want.tolist(), "functional": via_fn.tolist()})
+                continue
+            try:
+                for vname, obj in lifecycle_variants(make, used=lambda m: m(*[a.clone() for a in args2], **call_kw)):
+                    ctx.case(1, 1)
+                    ctx.count("lifecycle_variants_compared")
+                    got = obj(*[a.clone() for a in args], **call_kw)
+                    if not _same(want, got):
+                        ctx.violation({"api": name, "symptom": "lifecycle-variant-differs-from-fresh-object",
+                                       "variant": vname, "falsy_options": falsy}, dict(case, variant=vname),
+                                      {"fresh": want.tolist(), "variant": got.tolist()})
+                        break
+                else:
+                    ctx.outcome([name, list(want.shape)])
+            except GuardViolation as e:
+                ctx.violation({"api": name, "symptom": "lifecycle-guard", "what": str(e)[:80]}, case, {})
+            except Exception as e:  # noqa: BLE001
+                ctx.violation({"api": name, "symptom": "raises", "type": type(e).__name__, "lifecycle": "variant"}, case,
+                              {"error": str(e)[-300:]})
+    ctx.sample({"lifecycle": {"modules": list(names), "configs_per_module": len(life_configs()),
+                              "variants": ["deepcopy", "pickle", "torch.save", "used+deepcopy", "eval+deepcopy",
+                                           "state_dict", "state_dict-after-use", "double-float"]}})
